@@ -69,6 +69,7 @@ func propC01(c *Ctx) {
 	c.Rule("R1.3", "first/last element access on a block slice is dominated by a proof that the slice is non-empty", 4)
 	pkg := c.W.Pkg("shovel")
 	summary := map[*ssa.Function]bool{} // fn returns (non-empty slice | non-nil error)
+	flagIdx := map[*ssa.Function]int{}  // … or sets the boolean result of this index
 	var nonEmptyAt func(fn *ssa.Function, s ssa.Value, site ssa.Instruction, depth int) (bool, string)
 	returnsNonEmpty := func(fn *ssa.Function) bool {
 		if v, ok := summary[fn]; ok {
@@ -78,12 +79,24 @@ func propC01(c *Ctx) {
 		ok := true
 		for _, r := range returnsOf(fn) {
 			vals := returnValues(r)
-			if len(vals) != 2 {
+			if len(vals) < 2 || !isErrorType(vals[len(vals)-1].Type()) {
 				ok = false
 				continue
 			}
-			if !isNilConst(vals[1]) {
+			if !isNilConst(vals[len(vals)-1]) {
 				continue // error path
+			}
+			// a boolean result that is true (load's "reorg" flag): the caller must not look at the
+			// blocks then – required of the caller where the summary is used
+			flagged := false
+			for j := 1; j < len(vals)-1; j++ {
+				if k, isC := vals[j].(*ssa.Const); isC && k.Value != nil && isBoolType(k.Type()) && k.Value.String() == "true" {
+					flagged = true
+					flagIdx[fn] = j
+				}
+			}
+			if flagged {
+				continue
 			}
 			if g, _ := nonEmptyAt(fn, vals[0], r, 1); !g {
 				ok = false
@@ -114,7 +127,18 @@ func propC01(c *Ctx) {
 		if call, idx := resultOf(s); call != nil && idx == 0 {
 			if callee := staticCallee(call); callee != nil && callee.Blocks != nil {
 				if e, ok := errResult(call); ok && e != nil && testedNilBefore(e, site) && returnsNonEmpty(callee) {
-					return true, "post-condition of " + fnName(callee) + " (returns an error or a non-empty slice) with the error tested"
+					flagOK := true
+					if j, has := flagIdx[callee]; has {
+						flagOK = false
+						if fv := extractOf(call, j); fv != nil {
+							if _, f := boolEdges(fv); len(f) > 0 && guardedByEdges(fn, site, f) {
+								flagOK = true
+							}
+						}
+					}
+					if flagOK {
+						return true, "post-condition of " + fnName(callee) + " (returns an error or a non-empty slice) with the error tested"
+					}
 				}
 			}
 		}
